@@ -5,6 +5,7 @@ Reads  $VERIF_REPO/src/anyio/_backends/_asyncio.py  (VERIF_REPO defaults to /rep
 coq/scopes/ChainGen.v: one structural `Fixpoint` over an explicit chain (`list scope_rec`, innermost first; for
 is_anyio_cancellation a `list exc_rec`, the exception first, then its __context__ chain) for each of
 
+  CancelScope._visible_parent_scope (stops?)             -> gen_visible_parent_stops  : scope_rec -> bool
   CancelScope._effectively_cancelled                    -> gen_effectively_cancelled : list scope_rec -> bool
   CancelScope._parent_cancellation_is_visible_to_us      -> gen_parent_visible        : list scope_rec -> bool
   AsyncIOBackend.checkpoint_if_cancelled (the walk)      -> gen_ckif_spins            : list scope_rec -> bool
@@ -32,6 +33,10 @@ GRAMMAR
                | `return` [`True` | `False` | acc] | `break` | `continue`
                | `v = v._parent_scope` | `v = v.__context__`          (pointer advance, at most once per iteration,
                                                                        nothing but `continue` may follow it)
+               | `v = v._visible_parent_scope`                        (advance through the property of that name, which
+                                                                       is translated too: `if <ptest>: return None`
+                                                                       `return self._parent_scope`; when <ptest> holds
+                                                                       the pointer becomes None and the loop ends)
                | `acc = min(acc, v.deadline)` | `acc = -math.inf` | `acc = math.inf`
                | `raise CancelledError(...)`                          (check_cancelled only: result "raises")
                | `await sleep(0)`                                     (checkpoint_if_cancelled only: result "spins";
@@ -43,6 +48,8 @@ GRAMMAR
                | <the scope-tag test of is_anyio_cancellation, matched verbatim>
                | `isinstance(v.__context__, CancelledError)`          (look-ahead; the only legal guard of an advance
                                                                        inside `while True`)
+  ptest      ::= `self._shield` | `self.shield` | `self._cancel_called` | `self.cancel_called`
+               | `self._host_task is None` | `self._host_task is not None` | `not` ptest | ptest `and` ptest | ptest `or` ptest
   boolexpr   ::= `self._parent_scope is not None` | `self.shield` | `self._shield` | `self.cancel_called`
                | `self._cancel_called` | `self._parent_scope._effectively_cancelled` (only after the is-not-None
                  conjunct) | `not` boolexpr | boolexpr `and` boolexpr | boolexpr `or` boolexpr
@@ -66,6 +73,9 @@ TAG_PREFIX = "Cancelled via cancel scope "
 
 class Refuse(Exception):
     pass
+
+
+HAVE_VPS = False   # set when the property CancelScope._visible_parent_scope exists and was translated
 
 
 def refuse(fn: str, node, what: str):
@@ -354,6 +364,13 @@ class Walk:
             self.R(s, f"unsupported call statement {describe(s)}")
         if isinstance(s, ast.Assign) and len(s.targets) == 1 and isinstance(s.targets[0], ast.Name):
             tgt = s.targets[0].id
+            if tgt == self.v and self.rec == "scope" and self.attr_of_v(s.value) == "_visible_parent_scope":
+                if not HAVE_VPS:
+                    self.R(s, "walk advances through `_visible_parent_scope` but CancelScope defines no such property")
+                # the property returns None (the loop ends) when its test holds, else the parent
+                stop_expr = self.after_loop(ctx, s)
+                cont = self.block(rest, ctx.copy(advanced=True), fall, ind + "  ")
+                return f"if gen_visible_parent_stops x\n{ind}then {stop_expr}\n{ind}else {cont}"
             if tgt == self.v:
                 link = "_parent_scope" if self.rec == "scope" else "__context__"
                 if self.attr_of_v(s.value) != link:
@@ -553,6 +570,45 @@ def translate_parent_visible(fn) -> str:
 
 # ---------------------------------------------------------------------------------------------------------------
 
+def translate_visible_parent(cls: ast.ClassDef):
+    """CancelScope._visible_parent_scope (added by the F42 fix), if present: returns Coq text or None."""
+    fns = [n for n in cls.body if isinstance(n, ast.FunctionDef) and n.name == "_visible_parent_scope"]
+    if not fns:
+        return None
+    name = "CancelScope._visible_parent_scope"
+    if len(fns) != 1 or "property" not in deco_names(fns[0]):
+        refuse(name, fns[0], "is not a single @property")
+    body = strip_doc(fns[0].body)
+    E = lambda src: dump(ast.parse(src, mode="eval").body)  # noqa: E731
+    ok = (len(body) == 2 and isinstance(body[0], ast.If) and not body[0].orelse and len(body[0].body) == 1
+          and isinstance(body[0].body[0], ast.Return)
+          and (body[0].body[0].value is None or dump(body[0].body[0].value) == E("None"))
+          and isinstance(body[1], ast.Return) and body[1].value is not None
+          and dump(body[1].value) == E("self._parent_scope"))
+    if not ok:
+        refuse(name, fns[0], "body is not `if <test>: return None` followed by `return self._parent_scope`")
+
+    def ptest(n) -> str:
+        if isinstance(n, ast.UnaryOp) and isinstance(n.op, ast.Not):
+            return f"negb ({ptest(n.operand)})"
+        if isinstance(n, ast.BoolOp):
+            op = "&&" if isinstance(n.op, ast.And) else "||"
+            return "(" + f" {op} ".join(ptest(v) for v in n.values) + ")"
+        d = dump(n)
+        if d in (E("self._shield"), E("self.shield")):
+            return "r_shield x"
+        if d in (E("self._cancel_called"), E("self.cancel_called")):
+            return "r_cancelled x"
+        if d == E("self._host_task is None"):
+            return "negb (r_hosted x)"
+        if d == E("self._host_task is not None"):
+            return "r_hosted x"
+        refuse(name, n, f"unsupported test {describe(n)}")
+
+    return "\n".join([f"(* {name}: true = the property returns None *)",
+                      f"Definition gen_visible_parent_stops (x : scope_rec) : bool := {ptest(body[0].test)}."])
+
+
 HEADER = """(* GENERATED by tools/translate_chain.py from src/anyio/_backends/_asyncio.py -- do not edit.
    Regenerated by every `bin/check C04` / `bin/check C06`; ChainEq.v proves each function equal to its
    specification in ChainSpec.v.  x = the current scope (or exception) of the walk, rest = the chain above it. *)
@@ -583,6 +639,11 @@ def generate(repo: Path) -> str:
         return fn
 
     parts = [HEADER]
+    global HAVE_VPS
+    vps = translate_visible_parent(cs)
+    HAVE_VPS = vps is not None
+    if vps is not None:
+        parts.append(vps)
     f = prop(find_func(cs.body, "_effectively_cancelled", "CancelScope"), "CancelScope._effectively_cancelled")
     parts.append(Walk("CancelScope._effectively_cancelled", f, "bool", "scope", "gen_effectively_cancelled").translate())
     f = prop(find_func(cs.body, "_parent_cancellation_is_visible_to_us", "CancelScope"),
